@@ -5,6 +5,7 @@ import (
 	"errors"
 	"sort"
 	"sync"
+	"time"
 
 	"github.com/couchbase/moss"
 )
@@ -156,6 +157,9 @@ type Lower struct {
 	// Gate, when non-nil, is called at the start of each update (used
 	// to stall the lower level from a scenario).
 	Gate func(call int)
+	// FailAlways makes every call fail promptly (after a short pause)
+	// without recording an offer: a lower level that keeps returning errors.
+	FailAlways bool
 }
 
 // NewLower returns a lower level starting from the given content.
@@ -186,10 +190,15 @@ func (l *Lower) Update(higher moss.Snapshot) (moss.Snapshot, error) {
 	fail := l.FailPlan[call]
 	gate := l.Gate
 	cur := l.Cur
+	always := l.FailAlways
 	l.mu.Unlock()
 
 	if gate != nil {
 		gate(call)
+	}
+	if always {
+		time.Sleep(200 * time.Microsecond)
+		return nil, ErrInjected
 	}
 
 	off := Offer{Seq: call, Failed: fail}
